@@ -234,6 +234,28 @@ def run(ctx):
                 concrete += 1
         if not o.get("ParsePanic") and o.get("DefText"):
             back.append((text, o))
+    # a definition with thousands of load lines (every value different), read several times over: each load reaches its own bar
+    if not ctx.replay:
+        big = G.gen_chain(rng)
+        big.loads = []
+        per = (3000 if ctx.tier == "quick" else 12000) // max(1, len(big.bars))
+        for bi, b in enumerate(big.bars):
+            for k in range(per):
+                if k % 3 == 2:
+                    big.loads.append({"kind": "d", "term": ["fy", "fx"][k % 2], "local": k % 5 != 0, "bar": b["id"], "t0": Fr(k % 400, 1000), "v0": Fr(-k - 1), "t1": Fr(600 + k % 400, 1000), "v1": Fr(bi + 1)})
+                else:
+                    big.loads.append({"kind": "c", "term": ["fy", "fx", "mz"][k % 3], "local": k % 4 != 0, "bar": b["id"], "t": Fr(k % 1000, 1000), "v": Fr(1000 * bi + k + 1)})
+        btext = L.layout(rng, big, plain=True)
+        nread = 8 if ctx.tier == "quick" else 12
+        for o in S.run_pipeline(ctx, [{"Text": btext, "ParseOnly": True, "Isolate": j % 2 == 1} for j in range(nread)]):
+            fails = expect(big, o)
+            if fails:
+                if concrete < 3:
+                    ctx.violation("the reader does not yield the structure the text describes (a definition with %d load lines): %s" % (len(big.loads), "; ".join(fails[:3])),
+                                  {"text": btext[:2000] + "\n...", "failures": fails[:10], "how": "tools: G.gen_chain with %d generated load lines per bar, read %d times" % (per, nread)})
+                concrete += 1
+                break
+        ctx.coverage["long_load_sections"] = {"load_lines": len(big.loads), "reads": nread}
     # write / read round trip through the implementation
     outs2 = S.run_pipeline(ctx, [{"Text": o["DefText"], "ParseOnly": True} for t, o in back])
     rt = 0
